@@ -384,7 +384,7 @@ func c20sNetStackEffect(op OpCode) int {
 }
 
 // every opcode byte except the six frame-starting ones; stack depth: exactly what the table's stack
-// validation asks for and one less (thorough: every depth 0..7 the pushes can build) - the validation
+// validation asks for and one less (thorough: also one and two spare words below the operands) - the validation
 // admits the instruction only with the operands its execute body pops
 //verif:opt unwind=300 budget_s=1500 thorough.budget_s=6000 split=64 thorough.split=128 big_bv=1 name_terms=6 max_split=300
 func H_C20_every_instruction_is_metered_and_total() {
@@ -400,7 +400,11 @@ func H_C20_every_instruction_is_metered_and_total() {
 		return
 	}
 	if verifThorough() {
-		depth = verifCase(8)
+		// one operand short, exact, and one and two spare words below the operands (capped at 7 pushes)
+		depth = c20sNeed(op) - 1 + verifCase(4)
+		if depth < 0 || depth > 7 {
+			return
+		}
 	} else {
 		depth = c20sNeed(op) - verifCase(2)
 		if depth < 0 {
